@@ -103,6 +103,10 @@ func vLaspOp(t []string) string {
 			if cmd.Name == collector.CommandPreconnect {
 				return collector.RPMResponse{StatusCode: 200, Body: []byte(pre1Body)}
 			}
+			if first, _ := vKV(t, "first"); first == "ok" && cmd.Name == collector.CommandConnect {
+				// the earlier attempt connects (run r0); the collector then restarts that run (see vLaspViaProcessor)
+				return collector.RPMResponse{StatusCode: 200, Body: []byte(`{"agent_run_id":"r0"}`)}
+			}
 			return collector.RPMResponse{StatusCode: 503, Err: fmt.Errorf("response code: 503")}
 		}
 		cmds = append(cmds, cmd.Name)
@@ -121,9 +125,11 @@ func vLaspOp(t []string) string {
 	if tok == "1" {
 		info.SecurityPolicyToken = "ffff-ffff"
 	}
+	// hs=1: the application also runs in high-security mode (it changes nothing about the handshake)
+	info.HighSecurity = vStr(t, 1) != "" && func() bool { v, _ := vKV(t, "hs"); return v == "1" }()
 	args := &ConnectArgs{
 		RedirectCollector: "", PayloadRaw: info.ConnectPayloadInternal(1, nil), License: info.License,
-		SecurityPolicyToken: info.SecurityPolicyToken, Client: client, AppKey: info.Key(), AgentLanguage: "php",
+		SecurityPolicyToken: info.SecurityPolicyToken, HighSecurity: info.HighSecurity, Client: client, AppKey: info.Key(), AgentLanguage: "php",
 		AgentVersion: "1.0", AppSupportedSecurityPolicies: info.SupportedSecurityPolicies,
 	}
 	var ok bool
@@ -215,6 +221,11 @@ func vLaspViaProcessor(info *AppInfo, client collector.Client, nextPhase func(),
 		// launches the attempt that is observed
 		nextPhase()
 		for _, app := range p.apps {
+			if app.state == AppStateConnected && app.connectReply != nil && app.connectReply.ID != nil {
+				// what processHarvestError does on a restart exception (409) for that run; the loop is idle
+				p.shutdownAppHarvest(*app.connectReply.ID)
+				app.state = AppStateUnknown
+			}
 			app.lastConnectAttempt = app.lastConnectAttempt.Add(-time.Hour)
 		}
 		query()
